@@ -16,6 +16,9 @@ class NotAffine(Exception):
     pass
 
 
+THROW_IS_OUTCOME = False        # (set by callers that explore functions which refuse by throwing)
+
+
 class Lin:
     __slots__ = ("c", "t")
 
@@ -374,6 +377,8 @@ def _run2(stmts, env, events, assumptions, on_call):
             if on_call(u, env, events, assumptions) is False:
                 raise NotAffine("call %s" % ir.show(u)[:60])
             continue
+        if k == "Throw" and THROW_IS_OUTCOME:
+            return "throw"
         raise NotAffine("statement %s" % k)
     return "end"
 
